@@ -11,6 +11,9 @@ def body(chk):
     # CLI options installed through Cucumber::with_cli() survive the builder methods called afterwards
     from checks import cucumber_builders
     cucumber_builders.obligations(chk, 'C06')
+    # the limit set on the runner survives the runner's other builder methods (which_scenario / before / after rebuild it)
+    from checks import runner_builders
+    runner_builders.obligations(chk, 'C06', fields=('max_concurrent_scenarios',))
 
 
 if __name__ == '__main__':
